@@ -1727,8 +1727,9 @@ package ring
 //@   assigns p2
 
 //@ afunc Ring.MulScalarBigint
-//@   trusted abstract level: p2 receives some ring element (value not tracked)
+//@   trusted abstract level: p2 receives p1 times an integer (value not tracked; domain and Montgomery exponent are those of p1)
 //@   assigns p2
+//@   ensures mexp(p2) == old(mexp(p1)) && dom(p2) == old(dom(p1))
 
 //@ afunc Ring.MulScalarBigintThenAdd
 //@   trusted abstract level: p2 receives some ring element (value not tracked)
